@@ -1,9 +1,93 @@
-"""C11 -- see harness/runfam.py (shared run-family correspondence + oracle_c11)."""
-import runfam
+"""C11 -- setup-tasks are lazy; teardowns run once, in reverse order.
+ * shared run-family correspondence + oracle_c11 (harness/runfam.py) under the deterministic scheduler
+ * CLI part (real processes / threads, real pickling paths): dodo modules with ordinary tasks and tasks
+   created at run time by a create_after creator (those travel to worker processes as fully pickled Task
+   objects), setup-tasks, teardown actions that append to a log file, one failing teardown; runners serial,
+   -n 2 -P thread, -n 2 (processes).  Oracle: every task whose action was started has exactly one teardown
+   line, after every `run` line of its own worker... (serial/thread: all teardowns after all runs, in
+   reverse order of execution); a failing teardown does not prevent the others; a setup-task ran before
+   its requirer and not at all when the requirer is up-to-date (second run).
+"""
+import os, subprocess, sys, tempfile, textwrap
+import common, runfam
+
+DODO = textwrap.dedent('''
+    import os
+    from doit import create_after
+    DOIT_CONFIG = {'default_tasks': ['work', 'cached', 'late']}
+    LOG = os.path.join(os.path.dirname(os.path.abspath(__file__)), 'log.txt')
+    def say(msg):
+        with open(LOG, 'a') as fh:
+            fh.write(msg + '\\n')
+    def boom():
+        raise RuntimeError('teardown failed')
+    def task_pre():
+        return {'actions': [(say, ['run pre'])], 'teardown': [(say, ['td pre'])]}
+    def task_env():
+        return {'actions': [(say, ['run env'])], 'teardown': [(say, ['td env'])]}
+    def task_work():
+        return {'actions': [(say, ['run work'])], 'setup': ['env'], 'teardown': [(say, ['td work']) BOOM], 'task_dep': ['pre']}
+    def task_cached():
+        return {'actions': [(say, ['run cached'])], 'setup': ['lazy'], 'uptodate': [UTD], 'teardown': [(say, ['td cached'])]}
+    def task_lazy():
+        return {'actions': [(say, ['run lazy'])], 'teardown': [(say, ['td lazy'])]}
+    @create_after(executed='pre')
+    def task_late():
+        for n in ('a', 'b'):
+            yield {'name': n, 'actions': [(say, ['run late:' + n])], 'teardown': [(say, ['td late:' + n])]}
+''')
+
+
+def cli_part(ctx, out):
+    n = 0
+    for boom in (False, True):
+        for utd in (False, True):
+            for rname, args in (('serial', []), ('thread', ['-n', '2', '-P', 'thread']), ('proc', ['-n', '2'])):
+                d = tempfile.mkdtemp(prefix='c11_', dir=ctx.tmp); n += 1
+                src = DODO.replace('BOOM', ', boom' if boom else '').replace('UTD', 'True' if utd else 'False')
+                open(os.path.join(d, 'dodo.py'), 'w').write(src)
+                try:
+                    p = subprocess.run([sys.executable, '-m', 'doit', 'run', '--continue'] + args, cwd=d, env=common.impl_env(),
+                                       capture_output=True, text=True, timeout=120)
+                    rc = p.returncode
+                except subprocess.TimeoutExpired:
+                    rc = 98
+                log = open(os.path.join(d, 'log.txt')).read().split('\n')[:-1] if os.path.exists(os.path.join(d, 'log.txt')) else []
+                runs = [l[4:] for l in log if l.startswith('run ')]
+                tds = [l[3:] for l in log if l.startswith('td ')]
+                out.count('cli:%s:rc%s' % (rname, rc)); out.evaluations += 1
+                case = dict(dodo=src, args=args, log=log, exit=rc, stderr=(p.stderr[-400:] if rc != 98 else 'timeout'))
+                def bad(shape, what):
+                    out.violations.append(dict(what=what + ' (%s runner%s)' % (rname, ', a teardown of `work` raises' if boom else ''), shape='c11:cli-' + shape, case=case))
+                if rc not in (0,):
+                    bad('exit', 'run with teardowns ended with exit code %s' % rc)
+                for t in runs:
+                    c = tds.count(t)
+                    if c != 1:
+                        bad('teardown-count', 'actions of task %s were started but its teardown ran %d time(s)' % (t, c))
+                for t in tds:
+                    if t not in runs:
+                        bad('teardown-unstarted', 'teardown of task %s ran although its actions were never started' % t)
+                if rname in ('serial', 'thread'):
+                    first_td = min([i for i, l in enumerate(log) if l.startswith('td ')] or [len(log)])
+                    if any(l.startswith('run ') for l in log[first_td:]):
+                        bad('teardown-early', 'a teardown ran before all tasks had finished')
+                    if rname == 'serial' and tds != list(reversed(runs)):
+                        bad('teardown-order', 'teardowns ran as %s, expected the reverse of %s' % (tds, runs))
+                if 'env' in runs and 'work' in runs and runs.index('env') > runs.index('work'):
+                    bad('setup-order', 'setup-task env ran after its requirer work')
+                if utd and 'lazy' in runs:
+                    bad('setup-not-lazy', 'setup-task lazy was executed although its requirer is up-to-date')
+                if not utd and ('lazy' not in runs or 'cached' not in runs):
+                    bad('setup-missing', 'requirer cached or its setup-task lazy did not run')
+    out.extra['cli_runs'] = n
 
 
 def run(ctx):
-    return runfam.run_property(ctx, 'C11')
+    out = runfam.run_property(ctx, 'C11')
+    cli_part(ctx, out)
+    out.rule += '; plus CLI runs (serial, -n 2 -P thread, -n 2 processes) of a dodo with delayed-created tasks, setup-tasks and teardowns (one failing)'
+    return out
 
 
 def replay(ctx, payload):
